@@ -55,6 +55,7 @@ PPC_REF = {
     "BL": {"W": {"lr"}}, "BLR": {"R": {"lr"}, "kinds": {"Branch"}}, "BCLR": {"R": {"lr"}, "kinds": {"Branch"}},
     "BCTR": {"R": {"ctr"}, "kinds": {"Branch"}}, "MTLR": {"W": {"lr"}}, "MFLR": {"R": {"lr"}, "Wn": {"lr"}},
     "MTCTR": {"W": {"ctr"}},
+    "BDNZL": {"W": {"ctr", "lr"}},
     "CMPWI": {"ops": {"Cmplts"}, "opsn": {"Cmpltu"}}, "CMPLWI": {"ops": {"Cmpltu"}, "opsn": {"Cmplts"}},
     "SRAWI": {"any": {"AShr", "sra"}}, "LBZ": {"load": 8, "ops": {"Zext"}, "opsn": {"Sext"}},
     "LWZ": {"load": 32}, "LWZU": {"load": 32}, "STW": {"store": 32}, "STWU": {"store": 32}, "STMW": {"store": 32},
@@ -65,7 +66,7 @@ PPC_REF = {
 SHARE_OK = {
     ("mips", "b"): "B/BEQ/BEQZ/.../J: direct branches are lifted to a nop graph; the transfer is expressed by the successors pushed in translate_block",
     ("mips", "nop"): "hint / barrier instructions without architectural effect in this model (NOP, SYNC, PREF, ...)",
-    ("ppc", "nop"): "B/BC/BDNZL placeholders: the transfer is expressed by successors in translate_block (BDNZL is a known finding)",
+    ("ppc", "nop"): "B/BC placeholders: the transfer is expressed by successors in translate_block (BDNZL shares it and is reported by R3: known finding)",
 }
 
 
@@ -97,10 +98,15 @@ def check_rows(r, db, arch, disp, runs, ref, hb):
         if i not in ref:
             continue
         hs = arm["handlers"]
-        if not hs or hs[0] not in runs or runs[hs[0]] is None:
+        if not hs and any(last_seg(c) in ("nop", "nop_graph") for c in arm["callees"]):
+            # lifted as a placeholder without any effect
+            sig = {"W": set(), "R": set(), "ops": set(), "load": set(), "store": set(), "kinds": {"Nop"}}
+            hs = [lifters.TB[arch]]
+        elif not hs or hs[0] not in runs or runs[hs[0]] is None:
             r.open("%s|%s" % (arch, i), db.where(hb, arm["line"]), "handler not interpreted")
             continue
-        sig = signature(runs[hs[0]])
+        else:
+            sig = signature(runs[hs[0]])
         row = ref[i]
         probs = []
         if not row.get("W", set()) <= sig["W"]:
@@ -585,7 +591,7 @@ MANIFEST = {
             "rlwinm/slwi/lis are exact bit for bit for all (mb, me); a branch whose delay slot is missing does not fall "
             "through. It does not decide value-level arithmetic of lwl/lwr/swl/swr merging and accumulate carries.",
     "note": "Trusted: rustc nightly HIR; the reference rows in fv/props/c02.py transcribed from MIPS32 vol. II and Power "
-            "ISA 2.07 book I keyed by capstone enumerators; ilshape transfer functions. Known: PPC BDNZL is lifted as a nop.",
+            "ISA 2.07 book I keyed by capstone enumerators; ilshape transfer functions; bit-provenance evaluator. Known findings: PPC BDNZL is lifted as a nop; XER[CA] is consumed by addze but never produced.",
 }
 
 
